@@ -115,6 +115,9 @@ void StringBox::enclose_curlies()
 
 void StringBox::add_left_parens()
 {
+    if (lines_.empty()) {
+        lines_.push_back("");
+    }
     if (lines_.size() == 1) {
         lines_[0].insert(0, "(");
     } else {
@@ -129,6 +132,9 @@ void StringBox::add_left_parens()
 
 void StringBox::add_right_parens()
 {
+    if (lines_.empty()) {
+        lines_.push_back("");
+    }
     if (lines_.size() == 1) {
         lines_[0].append(")");
     } else {
